@@ -716,17 +716,18 @@ pub fn compress(values: &[FixWord], max_size: u8) -> (Vec<FixWord>, HashMap<FixW
     //
     // Invariant: delta<lower is never a solution.
     // Because delta must be non-negative, we initialize it to zero.
-    let mut lower = FixWord::ZERO;
+    let mut lower = 0_i64;
     // Invariant: delta=upper is always solution.
     // To initialize upper and begin the search we construct a solution that always works: a single
     // interval encompassing the entire slice and the largest delta possible.
-    // Differences and sums of two fix words need 33 bits.
+    // Differences of two fix words need 33 bits, so every delta and gap is an exact i64.
+    // (Saturating them at i32::MAX makes the search miss an optimal delta of exactly 2^31-1
+    // when the whole range is wider than that.)
     let wide = |a: FixWord, b: FixWord| -> i64 { a.0 as i64 - b.0 as i64 };
-    let clamp = |x: i64| -> FixWord { FixWord(x.clamp(i32::MIN as i64, i32::MAX as i64) as i32) };
-    let max_delta = clamp(wide(
+    let max_delta = wide(
         *dedup_values.last().unwrap(),
         *dedup_values.first().unwrap(),
-    ));
+    );
     let mut upper = max_delta;
     let mut solution = vec![dedup_values.len()];
 
@@ -735,17 +736,17 @@ pub fn compress(values: &[FixWord], max_size: u8) -> (Vec<FixWord>, HashMap<FixW
         // After the following line delta is potentially equal to lower. This is what we want as
         // we know upper is a solution so to advance the search when upper=lower+1
         // we need to check lower+1.
-        let delta = clamp(lower.0 as i64 + wide(upper, lower) / 2);
+        let delta = lower + (upper - lower) / 2;
 
         let mut interval_start = *dedup_values.first().unwrap();
         // The smallest delta such that the candidate solution will be the same.
         // This is the maximum of all gaps that don't start a new interval.
-        let mut delta_lower = FixWord::ZERO;
+        let mut delta_lower = 0_i64;
         // The largest delta such that the candidate solution will be different.
         // This is the minimum of all gaps that start a new interval.
         let mut delta_upper = max_delta;
         for (i, &v) in dedup_values.iter().enumerate() {
-            let gap = clamp(wide(v, interval_start));
+            let gap = wide(v, interval_start);
             if gap > delta {
                 // We need to start a new interval
                 if gap < delta_upper {
@@ -793,8 +794,9 @@ pub fn compress(values: &[FixWord], max_size: u8) -> (Vec<FixWord>, HashMap<FixW
         }
         // PLtoTF.2014.78: the midpoint is rounded down, also for negative values.
         let first = *interval.first().unwrap();
-        let replacement = clamp(first.0 as i64 + wide(*interval.last().unwrap(), first) / 2);
-        result.push(replacement);
+        // The midpoint of two fix words is a fix word.
+        let replacement = first.0 as i64 + wide(*interval.last().unwrap(), first) / 2;
+        result.push(FixWord(replacement as i32));
     }
 
     (result, value_to_index)
